@@ -121,7 +121,10 @@ class Harness:
         # per-harness CBMC budget. The declared value is about 2x the time measured on an idle machine; the floor keeps a check
         # that shares the machine with other checks (or with a busy CI host) from ending undecided on the unchanged tree
         self.declared_timeout = int(meta.get("timeout", "900"))
-        self.timeout = max(self.declared_timeout, 1800 if meta.get("tier", "quick") == "quick" else 3600)
+        if os.environ.get("VERIF_KANI_TIMEOUT_FLOOR", "1") != "0":       # (0: sweeps over seeded changes keep the declared budgets)
+            self.timeout = max(self.declared_timeout, 1800 if meta.get("tier", "quick") == "quick" else 3600)
+        else:
+            self.timeout = self.declared_timeout
         self.funcs = [f for f in meta.get("funcs", "").split(";") if f]
         self.note = meta.get("note", "")
         self.contract = meta.get("contract", "")
